@@ -97,6 +97,8 @@ def cases(tier, seed):
                     out.append((q, d, "an"))
                     if n <= 2 and d[0] == "D5" or (n == 3 and kind == "entity" and sels == (X,) and d[0] == "sub3"):
                         out.append((q, d, "counts"))
+                    if n <= 2 and d[0] in ("D5", "sub3") and kind == "entity":
+                        out.append((q, d, "reuse"))
     memo = {}
     for n in range(1, BOUNDS[tier]["leaves_3vars"] + 1):
         for c in nnf_conds(n, ATOMS3, memo):
@@ -158,7 +160,24 @@ def run_case(case):
         return res
     exp = Counter(map(fol.row_key, exp_rows))
     try:
-        built = eqlfront.build(q, world)
+        if mode == "reuse":
+            # the() on the same variables first (it abandons the evaluation as soon as a second solution shows up), then
+            # a count-limited an(); the variables are then used again: the true solutions must still all be there
+            from krrood.entity_query_language import failures as F
+            from krrood.entity_query_language.result_quantification_constraint import AtMost
+            first = eqlfront.build(q, world, quantifier="the")
+            try:
+                first.query.evaluate()
+            except (F.NoSolutionFound, F.MultipleSolutionFound):
+                pass
+            second = eqlfront.build(q, world, quantification=AtMost(1), shared_vars=first.vars)
+            try:
+                second.rows()
+            except F.GreaterThanExpectedNumberOfSolutions:
+                pass
+            built = eqlfront.build(q, world, shared_vars=first.vars)
+        else:
+            built = eqlfront.build(q, world)
         got_rows = built.rows()
     except Exception as e:
         res.failures.append(Failure("crash", f"{label}: {type(e).__name__}: {e}"))
@@ -169,7 +188,7 @@ def run_case(case):
         n_total *= len(world[d[1]])
     if 0 < len(exp_rows) < n_total:
         res.nontrivial_key = (q, dspec)
-    feats = {"mode:an", "vars:%d" % len(q[4]), "sel:" + q[1] + str(len(q[2]))}
+    feats = {"mode:" + mode, "vars:%d" % len(q[4]), "sel:" + q[1] + str(len(q[2]))}
     for s in fol.subconds(q[3]):
         feats.add("node:" + s[0])
     if any(v > 1 for v in exp.values()):
